@@ -423,11 +423,15 @@ def tree_job(job):
         if not all(id(g) in oksat for g in got) or bool(got) != sat:    # the property's wording
             res.violation(key + t[0] + '-self-only-satisfied' + tag, "%r truth %r: info='self' gave %r which is not a "
                           'tuple of satisfied conditions of the tree (non-empty iff satisfied)' % (t, truth, got), inp)
-        if sorted(map(id, got)) != sorted(map(id, sel)):                # Appendix A.1: exactly the satisfied members
+        # Appendix A.1: exactly the satisfied members.  Not demanded when the only member is a compound: the
+        # constructors unwrap a one-element tuple argument ("for pickling"), so When(When(c)) names c itself --
+        # still a satisfied condition of the tree, which is all the property asks (checked just above).
+        exact = 'single-compound-member' not in fl
+        if exact and sorted(map(id, got)) != sorted(map(id, sel)):
             res.violation(key + t[0] + '-self-exact' + tag, "%r truth %r: info='self' gave %d conditions %r, expected "
                           'the %d satisfied members' % (t, truth, len(got), got, len(sel)), inp)
         got = c(s, 'not')
-        if sorted(map(id, got)) != sorted(map(id, rest)):
+        if exact and sorted(map(id, got)) != sorted(map(id, rest)):
             res.violation(key + t[0] + '-not' + tag, "%r truth %r: info='not' gave %r, expected %d members"
                           % (t, truth, got, len(rest)), inp)
         got = c(s, True)
@@ -511,8 +515,8 @@ def _totuple(t):
 
 
 def run(tier='quick', seed=0):
-    nh = 200 if tier == 'quick' else 2500
-    nrt = 50 if tier == 'quick' else 400
+    nh = 200 if tier == 'quick' else 5000
+    nrt = 50 if tier == 'quick' else 800
     res = Result(rule='prim: each primitive x full parameter grid (tolerances incl. 0 and numpy scalars; windows 0, None, '
                  '1..5, 30 > len(history), 2.9) x %d seeded fake solvers (histories of length 0..29: grid/float/plateau/'
                  'descending/+inf prefix/+inf anywhere); distinct = (primitive, kwds, window-vs-length class, expected). '
